@@ -6,6 +6,7 @@ import (
 
 	"golang.org/x/tools/go/ssa"
 
+	"saoverif/internal/cfgx"
 	"saoverif/internal/core"
 	"saoverif/internal/guard"
 )
@@ -166,4 +167,71 @@ func ruleShardReleaseCallers(r *core.Run) {
 		}
 	}
 	r.Floor("shardrelease_call_sites", n, 5)
+}
+
+// ruleWithdrawClass (T-refund-class): in market.Withdraw every contribution
+// added to the refund inside the per-shard loop is classified by the shard's
+// status: the price of the full order duration only for a shard that never
+// started (waiting), the price of the remaining term only for a completed shard
+// of this order. A shard in any other state (migrating = the in-flight copy of
+// a replica that is already settled through the old shard, timeout, terminated)
+// contributes nothing. This is the structural part of "refund + income = charge".
+func ruleWithdrawClass(r *core.Run) {
+	const id = "T-refund-class"
+	fn := r.Func(id, "market/keeper.Keeper.Withdraw")
+	if fn == nil {
+		return
+	}
+	res := r.Resolver(fn)
+	ck := &guard.Checker{P: r.P, Fn: fn, Res: res}
+	waiting := constVal(r, "order/types", "ShardWaiting")
+	completed := constVal(r, "order/types", "ShardCompleted")
+	status := "*order/keeper.Keeper.GetShard(*)#0.Status"
+	n := 0
+	cnt := map[string]int{}
+	for _, l := range cfgx.Loops(fn) {
+		if !rangesField(r, fn, l, "Shards") {
+			continue
+		}
+		for _, b := range fn.Blocks {
+			if !l.Body[b] {
+				continue
+			}
+			for _, ins := range b.Instrs {
+				c, ok := ins.(*ssa.Call)
+				if !ok {
+					continue
+				}
+				name, _ := res.CalleeName(&c.Call)
+				if name != "sdk.Dec.Add" || len(c.Call.Args) != 2 {
+					continue
+				}
+				n++
+				t := res.Of(c.Call.Args[1]).String()
+				class, atoms := "unclassified", []guard.Atom{guard.Eq(status, waiting), guard.Eq(status, completed)}
+				switch {
+				case strings.Contains(t, "int64(#2.Duration)"):
+					class, atoms = "full-term", []guard.Atom{guard.Eq(status, waiting)}
+				case strings.Contains(t, ".CreatedAt"):
+					class, atoms = "remaining-term", []guard.Atom{guard.Eq(status, completed)}
+				}
+				cnt[class]++
+				key := core.Key(id, "market/keeper.Keeper.Withdraw", fmt.Sprintf("%s#%d", class, cnt[class]))
+				ok2, w := ck.MustPass(b, atoms)
+				if ok2 && class == "remaining-term" {
+					// conjunction, in either order: the shard also belongs to this order's paid period
+					ok2, w = ck.MustPass(b, []guard.Atom{guard.Eq("*order/keeper.Keeper.GetShard(*)#0.OrderId", "#2.Id")})
+				}
+				switch {
+				case ok2:
+					r.Discharge(id, key, r.P.Pos(c.Pos()), "the "+class+" contribution is added only under "+atoms[0].Desc)
+				case len(w) == 1 && w[0] == guard.StateBound:
+					r.Undecide(id, key, r.P.Pos(c.Pos()), "abstract-state bound exceeded")
+				default:
+					r.Violate(id, key, r.P.Pos(c.Pos()), fmt.Sprintf("Withdraw adds a %s refund contribution for a shard without establishing %s: a shard in another state (e.g. the migrating copy of a replica that is settled through its old shard) is refunded as if it were an unstarted replica, so refund + provider income exceeds what the order was charged and the market escrow pays it from other orders' money", class, atoms[0].Desc), append([]string{"path (branch decisions):"}, w...)...)
+				}
+			}
+		}
+	}
+	r.Floor("refund_contributions", n, 2)
 }
